@@ -455,6 +455,15 @@ func slicesEqual(x, y any) (err error) {
 		_, xv, _ := derefPtr(xrv.Index(i).Type(), xrv.Index(i))
 		_, yv, _ := derefPtr(yrv.Index(i).Type(), yrv.Index(i))
 
+		// nil pointer elements dereference to nothing:
+		// two of them are equal, one of them is a mismatch
+		if !xv.IsValid() || !yv.IsValid() {
+			if xv.IsValid() != yv.IsValid() {
+				err = errorf("Slice/array nil element mismatch")
+			}
+			continue
+		}
+
 		// Get primitives out of the way
 		var tried bool
 		if tried, err = primitivesEqual(xv, yv); tried {
